@@ -20,7 +20,8 @@ where
         usize::try_from(n).map_err(|e| io::Error::new(io::ErrorKind::InvalidData, e))
     })?;
 
-    let mut references = Vec::with_capacity(n_ref);
+    // `n_ref` is untrusted: reserve a bounded amount.
+    let mut references = Vec::with_capacity(n_ref.min(1 << 16));
 
     for _ in 0..n_ref {
         let (bins, metadata) = read_bins(reader)?;
